@@ -62,8 +62,33 @@ func selftest(ids []string) int {
 		}
 		wg.Wait()
 		ok := len(logs[0]) > 0
+		// the race build may add "race" verdicts of its own: compare run, hash and
+		// steps across builds, whole lines within one kind of build
+		strip := func(b []byte) []byte {
+			var out []byte
+			for _, l := range bytes.Split(b, []byte("\n")) {
+				f := bytes.Fields(l)
+				if len(f) >= 3 {
+					out = append(out, bytes.Join(f[:3], []byte(" "))...)
+					out = append(out, '\n')
+				}
+			}
+			return out
+		}
+		firstRace := -1
+		for i, v := range vs {
+			if v.bin == sc.race && firstRace < 0 {
+				firstRace = i
+			}
+		}
 		for i := 1; i < len(logs); i++ {
-			if !bytes.Equal(logs[0], logs[i]) {
+			same := bytes.Equal(strip(logs[0]), strip(logs[i]))
+			if vs[i].bin == sc.plain {
+				same = same && bytes.Equal(logs[0], logs[i])
+			} else {
+				same = same && bytes.Equal(logs[firstRace], logs[i])
+			}
+			if !same {
 				ok = false
 				fmt.Printf("selftest %s: process %d (GOMAXPROCS=%d, race=%v) diverged from process 0\n", id, i, vs[i].proc, vs[i].bin == sc.race)
 			}
